@@ -15,6 +15,7 @@ byte strings as plain hex (`-` = empty), "no value" as `~`.
 * `unrep <joined outcome> <per-character outcomes> <characters joined by ,>` → `ok <characters> | crash`; outcome letters `o e i c`
 * `check <name> <is_template> <dec> <codec | ~> <characters | ~ (no language) | ^ (no list)> <oracle>` →
   tags and the encoding kept; `<oracle>` = `;`-separated `<enc name>=<joined outcome>:<per-character outcomes>` (or `~`)
+* `euctw-dec <bytes> <cns oracle>` → `ok <text> | err <offset> <eilseq|einval>`; `euctw-enc <text> <inverse oracle>` → `ok <bytes> | err <index>`
 -/
 namespace I18n.Driver.Charset
 open I18n I18n.Charset I18n.Generated.Charset
@@ -149,6 +150,30 @@ def handle (op : String) (args : List String) : String :=
     | .ok (tags, enc) =>
       let ts := if tags.isEmpty then "-" else ";".intercalate (tags.map showTag)
       s!"ok {ts} enc={match enc with | none => "~" | some e => showName e}"
+  | "euctw-dec", [b, orc] =>
+    -- oracle: `;`-separated `<plane>.<row>.<col>=<code point>` (hex), the table entries the input could touch
+    let entries : List ((Nat × Nat × Nat) × Nat) := if orc == "~" then [] else (orc.splitOn ";").filterMap fun item =>
+      match item.splitOn "=" with
+      | [k, v] => match nameOf k with
+        | [p, r, c] => some ((p, r, c), (nameOf v).headD 0)
+        | _ => none
+      | _ => none
+    let cns : CnsTable := fun p r c => (entries.find? (·.1 == (p, r, c))).map (·.2)
+    match eucTwDecode cns (bytesOf b) with
+    | .ok cs => s!"ok {showName cs}"
+    | .error (i, incomplete) => s!"err {i} {if incomplete then "einval" else "eilseq"}"
+  | "euctw-enc", [t, orc] =>
+    -- oracle: `;`-separated `<code point>=<plane>.<row>.<col>`
+    let entries : List (Nat × (Nat × Nat × Nat)) := if orc == "~" then [] else (orc.splitOn ";").filterMap fun item =>
+      match item.splitOn "=" with
+      | [k, v] => match nameOf v with
+        | [p, r, c] => some ((nameOf k).headD 0, (p, r, c))
+        | _ => none
+      | _ => none
+    let inv : CnsInverse := fun ch => (entries.find? (·.1 == ch)).map (·.2)
+    match eucTwEncode inv (nameOf t) with
+    | .ok bs => s!"ok {showBytes bs}"
+    | .error i => s!"err {i}"
   | _, _ => "bad-op"
 
 end I18n.Driver.Charset
